@@ -256,6 +256,33 @@ def gen_small_scope(rng, tier, ops_fn, prefix="x", acc=False, basins=False, n_qu
     return out
 
 
+def gen_medium(rng, tier, ops_fn, prefix="md", acc=False, basins=False):
+    """a few grids with more than 256 nodes replayed by the model too (quick: two, thorough: twenty):
+    long profiles (hundreds of breadth-first levels, flow paths of hundreds of steps) and 17x17 /
+    18x16 rasters (hundreds of nodes, dozens of basins) - counters, labels and level arrays must not
+    be narrower than the sizes they count"""
+    out = []
+    for k in range(2 if tier == "quick" else 20):
+        if k % 2 == 0:
+            n = rng.choice([260, 300])
+            g = gen.Grid("profile", size=n, dx=1.0, borders=[rng.choice("vc"), "v"], cache=bool(k % 4), ov=[])
+            # a long monotone ramp with a few pits, or a saw
+            if rng.random() < 0.5:
+                z = [float(i) + (0.0 if i % 97 else -3.0) for i in range(n)]
+            else:
+                z = [float((i * 7) % 11) + 0.01 * i for i in range(n)]
+        else:
+            g = gen.raster(rng, 16, 18, conn=rng.choice(["queen", "rook"]), ov_prob=0.0, allow_loop=False)
+            z = gen.elevation(rng, g, rng.choice(["ints", "random", "steps"]))
+        lines = [g.line(), "graph " + " ".join(ops_fn(rng)), "update " + gen.hexes(z)]
+        if acc:
+            lines.append("acc s " + hx(1.0))
+        if basins and not any(o.startswith("multi") for o in lines[1].split()[1:]):
+            lines.append("basins")
+        out.append(("%s%d" % (prefix, k), lines))
+    return out
+
+
 def gen_big_oracle_only(rng, tier, kind):
     """thorough tier only: rasters of 16x16 to 40x40 nodes (many basins, hubs of large degree, long
     flow paths) judged by the independent oracle alone - the model driver is not run on them"""
@@ -289,6 +316,7 @@ def gen_resolved(rng, tier):
         ops = gen.resolver_ops(rng)
         out.append(("r%d" % k, _flow_scn(rng, g, ops, n_updates=rng.randint(1, 2))))
     out += gen_small_scope(rng, tier, gen.resolver_ops, "xr")
+    out += gen_medium(rng, tier, gen.resolver_ops, "mdr")
     out += gen_big_oracle_only(rng, tier, "res")
     return out
 
@@ -300,6 +328,7 @@ def gen_single(rng, tier):
         ops = rng.choice([["single"], ["single"], ["pflood", "single"], ["single:%d" % rng.choice([2, 3, 4])]])
         out.append(("s%d" % k, _flow_scn(rng, g, ops, n_updates=rng.randint(1, 2))))
     out += gen_small_scope(rng, tier, lambda r: r.choice([["single"], ["single:%d" % r.choice([2, 3])], ["pflood", "single"]]), "xs", n_quick=80, n_thorough=3000)
+    out += gen_medium(rng, tier, lambda r: r.choice([["single"], ["pflood", "single"]]), "mds")
     return out
 
 
@@ -353,6 +382,7 @@ def gen_any_ops(rng, tier, acc=False, basins=False):
         out.append(("a%d" % k, lines))
     out += gen_small_scope(rng, tier, lambda r: gen.resolver_ops(r) if r.random() < 0.6 else r.choice([["single"], ["multi:" + hx(1.0)]]),
                            "xa", acc=acc, basins=basins, n_quick=80, n_thorough=3000)
+    out += gen_medium(rng, tier, lambda r: gen.resolver_ops(r) if r.random() < 0.6 else r.choice([["single"], ["multi:" + hx(1.0)]]), "mda", acc=acc, basins=basins)
     return out
 
 
